@@ -79,4 +79,18 @@ PROPS = {
         trusted=SEARCH_TRUST + ["sort.Strings orders the decimal id strings (fixed order independent of offset/limit)"],
         statement="page = take lim ∘ drop off of the filtered sorted listing",
     ),
+    "C04": dict(
+        modules=["Syzgy.Props.C04"], ties=["Search"],
+        runs={"quick": [["lsh-C04", "--scenarios", "20", "--ops", "120"]], "thorough": [["lsh-C04", "--scenarios", "100", "--ops", "500"]]},
+        trusted=SEARCH_TRUST + ["the node priority queue of the model is a transliteration of container/heap (up/down); hyperplane distances and sides for the query are supplied by the implementation's distanceToHyperplane"],
+        statement="soundness of LSH search for every forest and oracle; non-empty and single-leaf = exact under C05",
+        partial="proved: lsh_sound (all forests, all oracles). 'at least one result when a match exists' and 'single leaf = exact' are checked by direct oracles on the implementation and by exact correspondence of the traversal (result distances and pointsSearched) with the Lean search; not yet theorems",
+    ),
+    "C05": dict(
+        modules=["Syzgy.Props.C05"], ties=["Search"],
+        runs={"quick": [["lsh-C05", "--scenarios", "20", "--ops", "160"]], "thorough": [["lsh-C05", "--scenarios", "120", "--ops", "600"]]},
+        trusted=SEARCH_TRUST + ["distanceToHyperplane is a deterministic function of (vector, hyperplane): the side oracle of the model is a function"],
+        statement="forest ids = live ids invariant, all histories, all oracles",
+        partial="covering-radius completeness is checked on the implementation after every operation (direct oracle); as a theorem it needs the geometric PruneSound hypothesis and is not yet proved",
+    ),
 }
